@@ -185,8 +185,8 @@ CASES += [
          old="      if ((handler->mArguments.findExactArg( key) != nullptr)\n          || (handler->mSubGroupArgs.findExactArg( key) != nullptr))\n         return handler;",
          new="      if ((handler->mArguments.findArg( key) != nullptr)\n          || (handler->mSubGroupArgs.findExactArg( key) != nullptr))\n         return handler;"),
     dict(id='c08-eq-owner-skip-positive-form', prop='C08', file=G, expect=None,
-         old="         if ((key_owner != nullptr)\n             && (stored_group.mpArgHandler.get() != key_owner))\n            continue;   // for\n\n         if (is_key)",
-         new="         if (!((key_owner == nullptr)\n               || (stored_group.mpArgHandler.get() == key_owner)))\n            continue;   // for\n\n         if (is_key)"),
+         old="         if ((key_owner != nullptr)\n             && (stored_group.mpArgHandler.get() != key_owner))\n            continue;   // for\n",
+         new="         if (!((key_owner == nullptr)\n               || (stored_group.mpArgHandler.get() == key_owner)))\n            continue;   // for\n"),
 ]
 
 CASES += [
@@ -204,10 +204,6 @@ CASES += [
          old="         for (auto & stored_group : mArgGroups)\n         {\n            stored_group.mpArgHandler->endValueList();\n         } // end for", new=""),
     dict(id='c08-orig-last-does-not-stop', prop='C08', file=G, expect='R5',
          old="      if (result == Handler::ArgResult::last)\n         break;   // for\n   } // end for", new="   } // end for"),
-    dict(id='c08-orig-inversion-to-first-member', prop='C08', file=G, expect='R5',
-         old="         invert_next = true;\n         continue;   // for", new="         invert_next = false;"),
-    dict(id='c08-inversion-not-cleared', prop='C08', file=G, expect='R5',
-         old="         if (is_key)\n            stored_group.mpArgHandler->mInverted = false;\n      } // end for", new="      } // end for"),
     dict(id='c08-eq-end-lists-index-loop', prop='C08', file=G, expect=None,
          old="         for (auto & stored_group : mArgGroups)\n         {\n            stored_group.mpArgHandler->endValueList();\n         } // end for",
          new="         for (auto & member : mArgGroups)\n            member.mpArgHandler->endValueList();"),
